@@ -14,6 +14,9 @@ import (
 //	work            w++
 //	call Fn         fnN() / R{}.mN()                           interpreted call
 //	hostcb Fn       h.Call(fnN)                                the host calls the function back (wrapper frame)
+//	latecb Fn       h.Hold(fnN)                                native code that calls back late: as hostcb, but when the operation
+//	                                                           is executed after the cancellation the callback is made only when
+//	                                                           everything else has settled (a timer, a handler)
 //	go Fn           go fnN()
 //	rec N           rec(N)                                     recursion of depth N
 //	loop N Body     for i := 0; i < N; i++ { Body }
@@ -95,6 +98,8 @@ func (r *renderer) stmts(b *strings.Builder, body []Stmt, fns []Fn, plain bool, 
 			fmt.Fprintf(b, "%s%s()\n", ind, fnName(fns, s.Fn))
 		case "hostcb":
 			fmt.Fprintf(b, "%sh.Call(%s)\n", ind, fnName(fns, s.Fn))
+		case "latecb":
+			fmt.Fprintf(b, "%sh.Hold(%s)\n", ind, fnName(fns, s.Fn))
 		case "go":
 			fmt.Fprintf(b, "%sgo %s()\n", ind, fnName(fns, s.Fn))
 		case "rec":
@@ -337,7 +342,7 @@ func reexecGolit(p Prog) bool {
 	count = func(body []Stmt, mult int) {
 		for _, s := range body {
 			switch s.Op {
-			case "call", "go", "hostcb":
+			case "call", "go", "hostcb", "latecb":
 				if s.Fn >= 0 && s.Fn < len(p.Fns) {
 					refs[s.Fn] += mult
 				}
@@ -411,6 +416,7 @@ func st(op string) Stmt                   { return Stmt{Op: op} }
 func call(f int) Stmt                     { return Stmt{Op: "call", Fn: f} }
 func spawn(f int) Stmt                    { return Stmt{Op: "go", Fn: f} }
 func hostcb(f int) Stmt                   { return Stmt{Op: "hostcb", Fn: f} }
+func latecb(f int) Stmt                   { return Stmt{Op: "latecb", Fn: f} }
 func loop(n int, b ...Stmt) Stmt          { return Stmt{Op: "loop", N: n, Body: b} }
 func forever(b ...Stmt) Stmt              { return Stmt{Op: "forever", Body: b} }
 func block(k string) Stmt                 { return Stmt{Op: "block", Kind: k} }
@@ -503,6 +509,14 @@ func repairedFamily() []Prog {
 	p = prog("earlier-host-callback", hostcb(0), st("tick"), forever(hostcb(1)))
 	p.Fns = []Fn{{Earlier: true, Body: []Stmt{st("tick"), st("work")}}, {Earlier: true, EKind: "mv", Body: []Stmt{st("work")}}}
 	ps = append(ps, p)
+	// native code that calls back late (a timer, a handler), from the goroutine of Execute and from another one: the
+	// second is F09-3 without any race (the call is in flight, its frame is made after Execute has returned)
+	p = prog("late-callback", spawn(0), st("tick"), latecb(1), block("recv"))
+	p.Fns = []Fn{fnOf(st("work"), loop(2, latecb(1), st("work")), block("select")), fnOf(st("tick"), st("work"))}
+	ps = append(ps, p)
+	p = prog("late-callback-method", spawn(0), forever(st("work")))
+	p.Fns = []Fn{fnOf(forever(latecb(1), st("work"))), methodOf(st("tick"), call(2)), fnOf(st("work"), st("tick"))}
+	ps = append(ps, p)
 	// F09-1: `go func(){…}()` executed again while earlier activations are blocked
 	ps = append(ps, prog("golit-loop", loop(3, golit(block("recv")), st("work")), forever(st("work"))))
 	ps = append(ps, prog("golit-loop-select", loop(2, golit(st("work"), block("select")), golit(block("range"))), st("tick"), block("recv")))
@@ -560,7 +574,11 @@ func randomProg1(r *rand.Rand, name string, cfg genCfg) Prog {
 			case c == 3 && callee >= 0:
 				out = append(out, spawn(callee))
 			case c == 4 && callee >= 0:
-				out = append(out, hostcb(callee))
+				if r.Intn(3) == 0 {
+					out = append(out, latecb(callee))
+				} else {
+					out = append(out, hostcb(callee))
+				}
 			case c == 5 && depth < 2:
 				out = append(out, loop(1+r.Intn(3), body(depth+1, self, false, plain)...))
 			case c == 6 && depth < 2:
@@ -637,7 +655,7 @@ func endsBlocked(p Prog, body []Stmt) bool {
 		switch s.Op {
 		case "block", "forever":
 			return true
-		case "call", "hostcb":
+		case "call", "hostcb", "latecb":
 			if s.Fn >= 0 && s.Fn < len(p.Fns) && endsBlocked(p, p.Fns[s.Fn].Body) {
 				return true
 			}
@@ -657,7 +675,7 @@ func terminating(p Prog, body []Stmt) []Stmt {
 		switch s.Op {
 		case "block", "forever":
 			continue
-		case "call", "hostcb":
+		case "call", "hostcb", "latecb":
 			if s.Fn >= 0 && s.Fn < len(p.Fns) && endsBlocked(p, p.Fns[s.Fn].Body) {
 				out = append(out, spawn(s.Fn)) // run it in its own goroutine instead
 				continue
